@@ -455,7 +455,7 @@ func runRepr(c ReprCase, r *runlog.R) error {
 
 var subRepr = runlog.Register(&runlog.Sub[ReprCase]{
 	Name: "repr-roundtrip",
-	Rule: "an option set (no PathSep or one of 37 separators: single characters incl. regexp/printf metacharacters, multi-character and multi-byte ones; EnableNumKeys; MaxIdx 0/1/2/5/4000; StructTag with one of 4 tag names; EscapePath; options in either order) and a random tree (hostile strings, nil, empty containers, keys incl. blank/empty/integer literals, keys holding other separators or parts of the separator, bracketed keys holding the separator with and without EscapePath) built in 3-4 mixed Go representations (as drawn, generic, 1-2 alternative choice vectors: generic/interface-keyed/named/typed maps, slices, arrays, StructOf structs with typed fields whose keys are spread over tagged fields and inline members (maps of 4 kinds, struct, *struct, nested inline struct, interface{} field), every field tagged under the selected one of 4 tag names, which carries the keys, and under one other, which carries another name - or, for one-letter keys, no tag and the upper-cased key as Go field name -, 1-3 pointer levels, *Config, narrow and named primitive kinds, typed nils); for each: the generic view of NewFrom(repr, options) equals the tree the model computes from T under the options (integer literals are list indices unless numeric keys are enabled or they exceed MaxIdx; brackets of an escaped key may stay or go), also through an interface{}-typed struct field; NewFrom(Dump) has the same generic view and the same hook fingerprint (nil = absent = empty; byte-identical when T has no nil/empty/index keys). Values are not compared when a node has names next to a list part under EnableNumKeys or beyond MaxIdx. Non-trivial: at least 2 different container representations other than the generic map[string]interface{} / []interface{} occur in the case. Distinct: hash of the case.",
+	Rule: "an option set (no PathSep or one of 37 separators: single characters incl. regexp/printf metacharacters, multi-character and multi-byte ones; EnableNumKeys; MaxIdx 0/1/2/5/4000; StructTag with one of 4 tag names; EscapePath; options in either order) and a random tree (hostile strings, nil, empty containers, keys incl. blank/empty/integer literals, keys holding other separators or parts of the separator, bracketed keys holding the separator with and without EscapePath) built in 3-4 mixed Go representations (as drawn, generic, 1-2 alternative choice vectors: generic/interface-keyed/named/typed maps, slices, arrays, StructOf structs with typed fields whose keys are spread over tagged fields and inline members (maps of 4 kinds, struct, *struct, nested inline struct, interface{} field), every field tagged under the selected one of 4 tag names, which carries the keys, and under one other, which carries another name - or, for one-letter keys, no tag and the upper-cased key as Go field name -, 1-3 pointer levels, *Config also rebranded as type T ucfg.Config, maps with a named string key type; numbers drawn over the whole range of every sized Go kind - the boundaries of int8..int64 / uint8..uint64 and their neighbours, any value in between, any float32 widened exactly (4 of 5 are not the float64 of their shortest decimal text), any float64, +-Inf, -0, no NaN - and given in their natural type, in any sized kind that holds them exactly (int8/16/32/64/int, uint8/16/32/64/uint, float32), in a named type of any of these kinds, named string/bool, behind 1-2 pointers; the primitives of a typed map, slice or array are built in one kind that holds them all ([]float32, [N]int8, map[string]uint16, []*nI32 ...); nil as untyped nil, nil *int / *interface{} / **int, a **int to a nil *int, nil map / slice / named slice, nil pointer to map, struct, Config, slice, array; around any node, the top level included, and around inline members a chain of up to 4 links, each a typed pointer, a pointer to an interface{} variable or a pointer to a variable of a named interface type, in any alternation (*interface{} and **interface{} struct fields, []interface{} element holding *interface{} holding *T, pointer to a nil interface ...); typed containers whose children share no Go type with every child boxed: map[string]*interface{}, []*interface{}, [N]*interface{}); numbers compare by exact value; for each: the generic view of NewFrom(repr, options) equals the tree the model computes from T under the options (integer literals are list indices unless numeric keys are enabled or they exceed MaxIdx; brackets of an escaped key may stay or go), also through an interface{}-typed struct field; NewFrom(Dump) has the same generic view and the same hook fingerprint (nil = absent = empty; byte-identical when T has no nil/empty/index keys). Values are not compared when a node has names next to a list part under EnableNumKeys or beyond MaxIdx. Non-trivial: at least 2 different container representations other than the generic map[string]interface{} / []interface{} occur in the case. Distinct: hash of the case.",
 	Gen:  genRepr,
 	Run:  runRepr,
 })
@@ -658,7 +658,7 @@ func showOrderedAs(t *gen.Tree, nilConts bool) string {
 			b.WriteString("}")
 			if asStruct(t) {
 				fmt.Fprintf(&b, "#struct(%s", showLayout(t))
-				for run := 0; run < 3; run++ {
+				for run := range layoutOf(t) {
 					if w := (t.R >> (inlineShift + 4*run)) & 15; w != 0 {
 						fmt.Fprintf(&b, "; member %d @%s", run, showLinks(w))
 					}
@@ -803,7 +803,7 @@ func runFlat(c FlatCase, r *runlog.R) error {
 	return nil
 }
 
-const flatRule = "an option set with a separator (37 separators: \".\", other single characters incl. every regexp and printf metacharacter, blank, comma, multi-character ones such as \"::\" \"->\" \"..\" \"%s\" \".*\", multi-byte runes; plus EnableNumKeys, MaxIdx 0/1/2/5/4000, StructTag with one of 4 tag names, EscapePath, options in either order) and a random tree T over keys {a,b,c,d,0,1} plus keys that hold parts of the separator or other separators and stay whole (and, without EscapePath, a bracketed key that is split like any other); every leaf path is cut into dotted groups independently (so any subset of the object edges, and of the list edges as index segments, is written dotted, next to nested spellings of sibling parts), objects are generic maps (1/2), structs (1/4: keys in tags, spread in their stated order over runs of tagged fields and inline members - inline maps of 4 kinds, inline struct, *struct, nested inline struct, interface{} field - so that inline members overlap sibling fields; all fields tagged under the selected one of 4 tag names, which carries the keys, and under one other, which carries another name) or any other representation (interface-keyed and typed maps, pointers, *Config); the spelled input F is the case, with its key insertion orders; run: F as stated plus every insertion order of the keys of every object in which two keys start with the same segment (all n! up to 4 keys, rotations and reversal above, at most 48 inputs; 8 repetitions each in replay mode) under the options must give the tree computed from F by an order-free, representation-free model (split keys at the separator, union, integer segments in [0,MaxIdx] are list indices except single-segment keys under EnableNumKeys), the same normalised hook fingerprint as NewFrom(nested tree), and be stable when fed back. Values are not compared when a node has names next to a list part under EnableNumKeys or beyond MaxIdx."
+const flatRule = "an option set with a separator (37 separators: \".\", other single characters incl. every regexp and printf metacharacter, blank, comma, multi-character ones such as \"::\" \"->\" \"..\" \"%s\" \".*\", multi-byte runes; plus EnableNumKeys, MaxIdx 0/1/2/5/4000, StructTag with one of 4 tag names, EscapePath, options in either order) and a random tree T over keys {a,b,c,d,0,1} plus keys that hold parts of the separator or other separators and stay whole (and, without EscapePath, a bracketed key that is split like any other); every leaf path is cut into dotted groups independently (so any subset of the object edges, and of the list edges as index segments, is written dotted, next to nested spellings of sibling parts), numbers, nils and pointer/interface chains around nodes and inline members as in repr-roundtrip (every sized and named Go kind over its whole range incl. float32 values that are no short decimals; typed nil pointers; chains of up to 4 typed-pointer / pointer-to-interface links in any alternation; boxed children of typed containers), objects are generic maps (1/2), structs (1/4: keys in tags, spread in their stated order over runs of tagged fields and inline members - inline maps of 4 kinds, inline struct, *struct, nested inline struct, interface{} field - so that inline members overlap sibling fields; all fields tagged under the selected one of 4 tag names, which carries the keys, and under one other, which carries another name) or any other representation (interface-keyed and typed maps, pointers, *Config); the spelled input F is the case, with its key insertion orders; run: F as stated plus every insertion order of the keys of every object in which two keys start with the same segment (all n! up to 4 keys, rotations and reversal above, at most 48 inputs; 8 repetitions each in replay mode) under the options must give the tree computed from F by an order-free, representation-free model (split keys at the separator, union, integer segments in [0,MaxIdx] are list indices except single-segment keys under EnableNumKeys), the same normalised hook fingerprint as NewFrom(nested tree), and be stable when fed back. Values are not compared when a node has names next to a list part under EnableNumKeys or beyond MaxIdx."
 
 var subFlat = runlog.Register(&runlog.Sub[FlatCase]{
 	Name: "flatten",
